@@ -1,5 +1,5 @@
 // ---- C08 / C09: ghost world of ONE iteration of KeyKeeper::loop_poll (E4) -------------------------------------------------
-use crate::key_keeper::key::Key;
+
 use crate::proxy::authorization_rules::ComputedAuthorizationItem;
 
 /// C02's `compute`: ComputedAuthorizationItem::from_authorization_item (decided in unit authz; uninterpreted here, so every
